@@ -292,6 +292,23 @@ func (st *State) setHeap(name, sort, term string) {
 }
 
 func (st *State) havocHeap(name string) {
+	if strings.HasPrefix(name, "$gvar:") {
+		// a mutable ghost variable of the unit written inside a loop body / callback: arbitrary (well-typed) value at the cut.
+		// Before this, ghost variables kept their pre-loop value across a cut (stale state: unsound for ghost state that a
+		// loop updates and later code reads).
+		g := name[len("$gvar:"):]
+		if old, ok := st.gvars[g]; ok {
+			v := st.freshVal("gvar_"+g, old.T)
+			if ti := typeInv(v.S, old.T); ti != "" {
+				st.assume(ti)
+			}
+			st.gvars[g] = Val{S: v.S, T: old.T}
+			if st.writes != nil {
+				st.writes[name] = true
+			}
+		}
+		return
+	}
 	sort, ok := st.hsort[name]
 	if !ok || sort == "" {
 		sort, ok = heapSortOf[name]
